@@ -35,6 +35,7 @@ void generate(sim::Rng &r, uint64_t seed, const std::string &tier, sim::Plan &p)
   if (r.chance(500)) fmask |= sim::F_SPURIOUS;
   if (r.chance(500)) fmask |= sim::F_COND_ANY;
   if (r.chance(400)) fmask |= sim::F_LATE_WAKE;
+  if (r.chance(300)) fmask |= sim::F_STALL;
   p.cfg["fmask"] = fmask;
   p.cfg["fseed"] = (long)(r.next() >> 2);
   p.cfg["starve_max"] = nprod + 1;
